@@ -168,6 +168,7 @@ class Fru(object):
         if header.multirecord_area_offset:
             fru.multirecord_area = self.get_fru_multirecord_area(fru_id=fru_id)
 
+        _check_area_layout(header, fru)
         return fru
 
 
@@ -451,6 +452,27 @@ class InventoryMultiRecordArea(object):
                 break
 
 
+def _check_area_layout(header, fru):
+    """The areas the common header points to must not overlap: no area starts
+    inside the span of an info area or of the multirecord area."""
+    starts = (header.internal_use_area_offset,
+              header.chassis_info_area_offset,
+              header.board_info_area_offset,
+              header.product_info_area_offset,
+              header.multirecord_area_offset)
+    records = getattr(fru.multirecord_area, 'records', ())
+    lengths = (0,
+               getattr(fru.chassis_info_area, 'length', 0),
+               getattr(fru.board_info_area, 'length', 0),
+               getattr(fru.product_info_area, 'length', 0),
+               sum(record.length + 5 for record in records))
+    for i, start in enumerate(starts):
+        for j, other in enumerate(starts):
+            if (i != j and start and other
+                    and start <= other < start + lengths[i]):
+                raise DecodingError('FRU areas overlap')
+
+
 class FruInventory(object):
     def __init__(self, data=None):
         self.chassis_info_area = None
@@ -480,3 +502,5 @@ class FruInventory(object):
         if self.common_header.multirecord_area_offset:
             self.multirecord_area = InventoryMultiRecordArea(
                 data[self.common_header.multirecord_area_offset:])
+
+        _check_area_layout(self.common_header, self)
